@@ -1290,6 +1290,9 @@ int gd_rename(DIRFILE *D, const char *old_code, const char *new_name,
 
   GD_RETURN_ERR_IF_INVALID(D);
 
+  /* the caller's flags share a word with internal ones (GD_REN_META) */
+  flags &= GD_REN_DATA | GD_REN_UPDB | GD_REN_DANGLE | GD_REN_FORCE;
+
   /* check access mode */
   if ((D->flags & GD_ACCMODE) == GD_RDONLY)
     GD_SET_RETURN_ERROR(D, GD_E_ACCMODE, 0, NULL, 0, NULL);
